@@ -45,7 +45,10 @@ def run(ctx):
             # record size x payload length, incl. final records longer than a reader's first buffer (512) and exact multiples
             for rs, plen in ((16, 0), (16, 16), (16, 40), (1, 3), (4096, 10), (4096, 1000), (1000, 1000), (100, 513), (4096, 8192), (513, 513), (512, 1023)):
                 rq = [(b'Accept', [b'*/*'])] if ver != 'b3' else []
-                e = ex(ver, b'https://example.com/', b'GET', rq, 200, [(b'Content-Type', [b'text/html']), (b'Foo', [b'Bar', b'Baz'])], b'', rbytes(rng, plen))
+                rs_ = [(b'Content-Type', [b'text/html']), (b'Foo', [b'Bar', b'Baz'])]
+                # a directive that names another (present) header field: verification only looks, it does not edit the response
+                if (rs + plen) % 2 == 0: rs_ += [(b'Cache-Control', [b'max-age=600, no-cache="foo, content-type"'])]
+                e = ex(ver, b'https://example.com/', b'GET', rq, 200, rs_, b'', rbytes(rng, plen))
                 ops.append(f'sxg.sign {exs(e)} {rs} {k["cert"]} {k["key"]} {hexs(certurl)} {hexs(vurl)} {date} {expires}')
                 meta.append(k)
     res = ctx.go(ops)
@@ -109,6 +112,8 @@ def run(ctx):
             e = list(e0); e[1] = hexs(u2); variants.append(e)
         e = list(e0); e[2] = hexs(b'HEAD'); variants.append(e)
         e = list(e0); e[4] = '404'; variants.append(e)
+        for st2 in ('0', '20', '2000', '-200', '201', '100', '299', '999', '2147483848'):      # incl. the zero value of the field
+            e = list(e0); e[4] = st2; variants.append(e)
         e = list(e0); e[7] = hexs(unhex(e0[7]) + b'x'); variants.append(e)
         e = list(e0); e[7] = hexs(unhex(e0[7])[:-1]); variants.append(e)
         # payload removed / cut at structural points (empty body, record-size field only, first record only)
